@@ -41,7 +41,9 @@ def plan(tier, seed):
               tier=tier, decoy=dec)
          for lay, dec in (("w", "w"), ("rw", "wf"), ("wf", "rw"),
                           ("r", "ww"))] + \
-        [dict(seed=seed, sterile=True)]
+        [dict(seed=seed, sterile=True),
+         dict(seed=seed, userspace=True,
+              count=12 if tier == "quick" else 150)]
 
 
 def monitor21(w, rec, res, params):
@@ -138,9 +140,85 @@ def sterile_leg(res):
                               case=dict(kinds=kinds))
 
 
+def userspace_leg(params, res):
+    """the user-space half of a fast group: the real FastSyncGroup.start /
+    run / roundtrip_packet over the simulated bus; the responses handed back
+    to user space look like frames the kernel side has activated (odd index,
+    writer commands enabled) and some responses are lost (20 ms time-outs).
+    Every cyclic frame user space sends must have all writer datagrams
+    NOP'ed"""
+    import asyncio
+    import random
+    from .. import aio, bus, ecat, simgroup
+    from ebpfcat.ebpfcat import FastSyncGroup
+    rng = random.Random(params["seed"] * 17 + 3)
+    for round_ in range(params["count"]):
+        terms = simgroup.gen_terms(rng, nmax=3)
+        terms[0]["rw"] = True
+        sims = simgroup.make_sims(terms)
+        b = bus.Bus(sims)
+        lost = [rng.random() < 0.25 for _ in range(64)]
+        seen = dict(frames=0, bad=None, timeouts=0)
+        with kern.session() as sess:
+            async def main(loop):
+                ec = ecat.OfflineFastEtherCat(sess)
+                ts, devs = simgroup.make_rig(terms, ec)
+                sg = FastSyncGroup(ec, devs)
+                state = dict(k=0)
+
+                def policy(nf, data):
+                    idx, = struct.unpack_from("<I", data, 4)
+                    if getattr(sg, "packet_index", None) is None or \
+                            idx != sg.packet_index or len(data) < 30:
+                        return [(0.0001, b.process(data))]
+                    writers = [(pos, cmd.value) for pos, _, cmd
+                               in sg.packet.on_the_fly]
+                    seen["frames"] += 1
+                    en = [pos for pos, cmd in writers if data[pos] != 0]
+                    if en and seen["bad"] is None:
+                        seen["bad"] = (seen["frames"], en, data[3] & 0xff)
+                    k = state["k"]
+                    state["k"] += 1
+                    resp = bytearray(b.process(data))
+                    # what the dispatcher + group program hand back
+                    resp[3] = (k * 2 + 1) & 0xff
+                    for pos, cmd in writers:
+                        resp[pos] = cmd
+                    if lost[k % len(lost)]:
+                        seen["timeouts"] += 1
+                        return []
+                    return [(0.0002, bytes(resp))]
+                bus.attach(ec, loop, b, policy)
+                task = sg.start()
+                for _ in range(400):
+                    await asyncio.sleep(0.005)
+                    if seen["frames"] >= 25 or task.done():
+                        break
+                task.cancel()
+                await asyncio.gather(task, return_exceptions=True)
+                await asyncio.sleep(0.05)
+            try:
+                aio.run(main, wall_limit=40)
+            except (aio.WallClock, aio.Idle):
+                res.inconc("user-space leg: watchdog")
+                continue
+        desc = dict(terms=terms, lost=lost[:24])
+        res.case(["userspace", round_, desc])
+        res.count("userspace_frames", seen["frames"])
+        res.count("userspace_timeouts", seen["timeouts"])
+        if seen["bad"]:
+            res.violation(
+                "unexplained:frame-left-user-space-with-enabled-writers",
+                f"cyclic frame #{seen['bad'][0]} was sent by user space "
+                f"with enabled write datagrams at {seen['bad'][1]} (index "
+                f"byte {seen['bad'][2]})", case=desc)
+
+
 def run_shard(params):
     res = Result()
-    if params.get("sterile"):
+    if params.get("userspace"):
+        userspace_leg(params, res)
+    elif params.get("sterile"):
         sterile_leg(res)
     else:
         c22.run_world(params, res, monitor21)
@@ -153,7 +231,8 @@ def finalize(res, tier, seed):
     res.info["transitions"] = c.get("transitions", 0)
     res.info["traces_validated_against_impl"] = c.get("k_replays", 0)
     for k in ("active_passes", "disabled_passes", "passive_passes",
-              "passes_counting_errors", "sterile_packets"):
+              "passes_counting_errors", "sterile_packets",
+              "userspace_frames", "userspace_timeouts"):
         if not c.get(k):
             res.inconc(f"{k}: never observed")
 
